@@ -62,7 +62,7 @@ P["C13"]=dict(level="other",
  bounds="<=3 entries; keys 'aaaa','bb','c' (lengths 4,2,1) in every order; one hop (quick), two hops (thorough)",
  outside="the gob wire format, type registration failures, hundreds of entries",
  assumptions=["encoding/gob is a record-stream stub (see DESIGN.md section 3); each record travels as one handle byte through the real io.Writer/io.Reader chain"],
- quick=dict(harnesses=["verifH_C13_Sharded_Sharded","verifH_C13_Sharded_Sync","verifH_C13_Sync_Sharded","verifH_C13_Sync_Sync","verifH_C13_ShardedOf_ShardedOf"], jobs=5, workers=3),
+ quick=dict(harnesses=["verifH_C13_Sharded_Sharded","verifH_C13_Sharded_Sync","verifH_C13_Sync_Sharded","verifH_C13_Sync_Sync","verifH_C13_ShardedOf_relay"], jobs=5, workers=3),
  thorough=dict(harnesses=["verifH_C13_Sharded_Sharded","verifH_C13_Sharded_Sync_relay","verifH_C13_Sync_Sharded_relay","verifH_C13_Sync_Sync","verifH_C13_ShardedOf_relay"], jobs=5, workers=3))
 
 P["C17"]=dict(level="other",
@@ -81,5 +81,58 @@ P["C18"]=dict(level="other",
  quick=dict(harnesses=["verifH_C18_ShardedMap","verifH_C18_SyncMap","verifH_C18_ShardedMapOf","verifH_C18_Failover","verifH_C18_FailoverOf"], jobs=5, workers=3),
  thorough=dict(harnesses=["verifH_C18_ShardedMap","verifH_C18_SyncMap","verifH_C18_ShardedMapOf","verifH_C18_Failover","verifH_C18_FailoverOf"], jobs=5, workers=3))
 
+P["C10"]=dict(level="other",
+ explanation="Kernel: the real Trait.TTL (default/override/Unlimited precedence, jitter, expirationsSet bump) executed symbolically in integer mode (mathematical integers with no-overflow side conditions, reals for float64) for every context TTL and configured TimeToLive with |T|<2^60 ns, every rand in [0,1), jitter disabled / the default / {0.05,0.1,0.25,0.5,1} and (second harness) any jitter in (0,1]; result compared with the contract T'=T exactly without jitter, |T'-T| <= |T|*J/2 (+1 ns truncation, 1e-15 relative slack) and same sign with jitter, 0 for Unlimited without context TTL. Around it (bit-vector mode): Write on the three real backends with a stepping symbolic clock stores E in [t_before+T, t_after+T] (0 when T=0); a later Read returns the value iff now<=E, else ErrExpired whose ExpiredAt equals the instant Walk reports (tsTime/ts round trip through time.Unix).",
+ bounds="|TTL| < 2^60 ns at config and context level, clock in [2^60,2^62] ns; float64 operations on symbolic operands are idealised as exact real operations (with full rounding-error terms z3 answers unknown; int64->float64 is exact below 2^53 ns = 104 days, above that the real code itself deviates by up to 2^-52 relative, which the idealisation does not see)",
+ outside="float rounding of multi-month TTLs; the sentinel collision now+T'==0; NaN/Inf jitter",
+ assumptions=["float64 arithmetic idealised as real arithmetic in the kernel harness","rand.Float64 returns any real in [0,1)"],
+ quick=dict(harnesses=["verifH_C10_TTLKernelIdeal:int","verifH_C10_TTLKernelIdealSymJ:int","verifH_C10_ShardedMap","verifH_C10_SyncMap","verifH_C10_ShardedMapOf"], jobs=5, workers=3, timeout=60),
+ thorough=dict(harnesses=["verifH_C10_TTLKernelIdeal:int","verifH_C10_TTLKernelIdealSymJ:int","verifH_C10_ShardedMap","verifH_C10_SyncMap","verifH_C10_ShardedMapOf"], jobs=5, workers=3, timeout=120))
+
+c12q=[k+"_"+a for k in ("verifH_C12_ShardedMap","verifH_C12_SyncMap","verifH_C12_ShardedMapOf") for a in ("trigger","amount","order","history")]
+c12t=[k+"_"+a for k in ("verifH_C12_ShardedMap","verifH_C12_SyncMap","verifH_C12_ShardedMapOf") for a in ("trigger","amount","order4","history")]
+P["C12"]=dict(level="other",
+ explanation="One cleanup cycle of the real Trait.invokeCleanup (limit checks, fraction rescaling for count breaches), evictMostExpired/evictLeastCounter/evictLeast of the three backends and PrepareRead's LRU/LFU bookkeeping, executed symbolically in four factored harnesses per backend: trigger (CountSoftLimit 0..n+1, Heap/Sys soft limits and the runtime readings any uint64, EvictionNeeded nil/false/true: nothing is evicted unless a limit is exceeded or EvictionNeeded is true), amount (0..5 entries, EvictFraction default/{0.1,0.25,0.34,0.5,0.75,1}, count breach or EvictionNeeded: removed = trunc(n*fraction), count breach comes down to CountSoftLimit*(1-f) within one entry, cache_evict = removed), order (3 or 4 entries with symbolic metrics, all three strategies: every removed entry ranks <= every kept one; sort.Slice is any correct unstable sort over the real less closure), history (3 real reads of solver-chosen keys at symbolic increasing instants establish the LRU/LFU counters, then one entry is evicted: it is the least recently / least frequently served).",
+ bounds="<=5 entries (order: <=4), one cycle, EvictFraction from a fixed list (concrete float64 arithmetic is then exact), deleteExpired disabled in these harnesses (C11)",
+ outside="sizes far above the limit; arbitrary EvictFraction in (0,1]; ranking of never-expiring against dated entries under EvictMostExpired (not fixed by the property)",
+ assumptions=["runtime.ReadMemStats readings are arbitrary uint64 values supplied by the harness","sort.Slice modelled as an arbitrary correct comparison sort"],
+ quick=dict(harnesses=c12q, jobs=6, workers=2),
+ thorough=dict(harnesses=c12t, jobs=6, workers=2))
+
 json.dump({"common_assumptions":common,"properties":P},open('/verif/checks.json','w'),indent=1)
 print("checks.json:",sorted(P))
+
+# ---- MANIFEST.json
+props=[json.loads(l) for l in open('/verif/properties.jsonl')]
+NA={
+ "C14":"solver-based checking of the real code does not reach it here: the property rests on reflect-based type hashing (recursiveTypeHash over runtime type descriptors, 'same in every process'), encoding/gob's wire format and net/http + net/url plumbing, none of which the go/ssa executor can encode (reflection, assembly-backed string search) and whose stubs would replace exactly the code the property is about; see DESIGN.md section 7",
+}
+PENDING="concurrency layer (event automata + BMC with symbolic scheduler) not built yet in this session; see DESIGN.md section 8"
+checks=[]
+for pr in props:
+    pid=pr["id"]
+    if pid not in P: continue
+    c=P[pid]
+    checks.append({
+      "property_id":pid,
+      "quick_cmd":"./check %s quick"%pid,
+      "thorough_cmd":"./check %s thorough"%pid,
+      "evidence_file":"/verif/evidence/%s.json"%pid,
+      "replay_cmd_template":"./check replay {path}",
+      "engine":"symgo",
+      "level_claimed":{"category":c["level"],"text":c["explanation"],"design_ref":"DESIGN.md section 4 (%s), section 9 (as built)"%pid},
+      "level_note":"Bounds: %s. Outside the claim: %s. Trusted: the symgo executor's Go semantics, the stubs listed in the evidence file (stubs_used), z3 4.8.12. Every reported violation is first reproduced natively (go test -overlay with the harness as its own replay)."%(c["bounds"],c["outside"]),
+      "technique":c.get("technique","bounded symbolic execution of the real functions' go/ssa + SMT (z3): each assertion decided for all symbolic inputs of every feasible path; counterexamples replayed natively"),
+    })
+na=[]
+for pr in props:
+    if pr["id"] in P: continue
+    na.append({"property_id":pr["id"],"reason":NA.get(pr["id"],PENDING)})
+m={"version":1,"setup_cmd":"./setup.sh",
+ "hooks":{"guard":"verif","enable":"no guarded code exists in /repo: harnesses are in-package files under /verif/harness injected with packages.Config.Overlay (encoder) and go test -overlay (native replay)","baseline_off_cmd":"cd /repo && go test -vet=off -count=1 -timeout 25m ./...","source_commits":[],"add_only":True},
+ "engines":[{"name":"symgo","path":"/verif/engine","serves_properties":sorted(P),"kind_free_text":"own symbolic executor for go/ssa (x/tools v0.29.0) with SMT-LIB2 back end (z3 4.8.12 via one persistent process per worker); forking path exploration, symbolic scalars, concrete-shaped heap; harnesses are in-package Go functions that are also their own native replay"}],
+ "checks":checks,
+ "notes":"Exit codes of ./check: 0 held within bounds (KNOWN-FINDING lines possible), 1 reproduced VIOLATION, 2 inconclusive (engine error, solver unknown, vacuity witness failed, model not reproducible). Repairs of genuine defects are unguarded 'fix:' commits in /repo, listed as fixed in /verif/known_findings.json.",
+ "not_applicable":na}
+json.dump(m,open('/verif/MANIFEST.json','w'),indent=1)
+print("manifest checks:",[c["property_id"] for c in checks],"NA:",[n["property_id"] for n in na])
